@@ -27,6 +27,7 @@ func init() {
 		Assumptions: []string{"text/template semantics; the template model mirrors cmd/protoc-gen-router/main.go newServiceModel and cmd/protoc-gen-wrapper/main.go", "grpc ClientStream/ServerStream contracts"},
 		Run:         runC12,
 		Controls: []Control{
+			{Name: "add-skips-unchanged-client", File: "pkg/router/router.go", Old: "\tr.registry[name] = client\n\tr.mu.Unlock()\n", New: "\tr.registry[name] = client\n\tr.mu.Unlock()\n\n\tif old == client {\n\t\treturn old\n\t}\n", Expect: "R12.4"},
 			{Name: "router-method-other-rpc", File: "pkg/trait/onoffpb/api_router.pb.go", Old: "\treturn child.GetOnOff(ctx, request)", New: "\treturn child.GetOnOff(context.Background(), request)", Expect: "R12.1"},
 			{Name: "router-constant-name", File: "pkg/trait/lightpb/api_router.pb.go", Old: "func (r *ApiRouter) UpdateBrightness(ctx context.Context, request *traits.UpdateBrightnessRequest) (*traits.Brightness, error) {\n\tchild, err := r.GetLightApiClient(request.Name)", New: "func (r *ApiRouter) UpdateBrightness(ctx context.Context, request *traits.UpdateBrightnessRequest) (*traits.Brightness, error) {\n\tchild, err := r.GetLightApiClient(\"\")", Expect: "R12.1"},
 			{Name: "delete-router-method", File: "pkg/trait/onoffpb/api_router.pb.go", Old: "func (r *ApiRouter) UpdateOnOff(ctx context.Context, request *traits.UpdateOnOffRequest) (*traits.OnOff, error) {\n\tchild, err := r.GetOnOffApiClient(request.Name)\n\tif err != nil {\n\t\treturn nil, err\n\t}\n\n\treturn child.UpdateOnOff(ctx, request)\n}\n", New: "", Expect: "R12.2"},
@@ -860,6 +861,11 @@ func r124(c *an.Ctx) {
 			}
 			if cb != want {
 				ok, why = false, fmt.Sprintf("onChange invoked %d times", cb)
+			}
+			// every Add is a transition: no path may return before the callback is considered, and nothing but the
+			// presence of a callback decides whether it is reported
+			if l.Get("r.onChange==nil") == "" {
+				ok, why = false, "a path of Add returns without considering the change callback ("+strings.Join(l.Assign, ", ")+"): the transition is not reported (and comparing two clients of an uncomparable dynamic type panics after the registry was already overwritten)"
 			}
 		}
 		c.Check(ok, rule, "(*pkg/router.router).Add|returns the previous client, stores the new one, reports the transition", fn.Pos(), fmt.Sprintf("%d paths", len(leaves)), why)
